@@ -2185,6 +2185,11 @@ void resize_target_update_count(struct cds_lfht *ht,
 {
 	count = max(count, MIN_TABLE_SIZE);
 	count = min(count, ht->max_nr_buckets);
+	/*
+	 * The table size is always a power of two: round the requested
+	 * size up, otherwise the resize never reaches its target.
+	 */
+	count = 1UL << cds_lfht_get_count_order_ulong(count);
 	uatomic_store(&ht->resize_target, count);
 }
 
